@@ -163,6 +163,10 @@ func (s *Service) attest(
 	return attestations, nil
 }
 
+// maxCommitteeSize is a sanity limit for the committee size supplied with a duty,
+// far above that of any chain (the largest preset has 2048 x 64 members per slot).
+const maxCommitteeSize = 1 << 24
+
 func (s *Service) createAttestations(_ context.Context,
 	duty *attester.Duty,
 	accounts []e2wtypes.Account,
@@ -179,6 +183,14 @@ func (s *Service) createAttestations(_ context.Context,
 			s.log.Warn().
 				Str("validator_pubkey", fmt.Sprintf("%#x", accounts[i].PublicKey().Marshal())).
 				Msg("No signature for validator; not creating attestation")
+			continue
+		}
+		if committeeSizes[i] > maxCommitteeSize {
+			// No chain has committees anywhere near this size; do not try to allocate the bits.
+			s.log.Error().
+				Str("validator_pubkey", fmt.Sprintf("%#x", accounts[i].PublicKey().Marshal())).
+				Uint64("committee_size", committeeSizes[i]).
+				Msg("Committee size out of range; not creating attestation")
 			continue
 		}
 		aggregationBits := bitfield.NewBitlist(committeeSizes[i])
